@@ -114,12 +114,18 @@ plan("C06", "fault_enumeration",
      q, t, crash_is_violation=True)
 
 q, t = tiers(200, 60, 10000, 900)
+q["layers"] = [dict(runs=200, budget_s=60, params="")] * 15 + [dict(runs=48, budget_s=60, params="mode=edge")]
+t["layers"] = [dict(runs=10000, budget_s=900, params="")] * 15 + [dict(runs=48, budget_s=900, params="mode=edge")]
+q["require_complete"] = t["require_complete"] = [("edge_cases", "edge_total")]
+q["require_probes"] = t["require_probes"] = ["edge_exit_signed_for_listed_source", "edge_exit_refused_for_unlisted_source"]
 plan("C05", "exploration",
      "one case = one (endpoint, domain class, source listed?, admin list size) combination; a seeded run draws an administrator list (empty / one / many, incl. look-alike strings), "
      "4-15 requests over {generic, multisign, attestation, attestation batch, proposal} with a domain per position from {attester, proposer, voluntary-exit, other spec types, "
      "near misses of the slashable types, random prefix} x random 28-byte suffix and a source address (absent / listed / unlisted / look-alike); a quarter of the runs make the rules "
      "answer UNKNOWN/FAILED for some keys. distinct = distinct combination actually exercised; non-trivial = all. Oracle: no signature under attester/proposer via generic endpoints, "
-     "none under any other type via the attestation/proposal endpoints (and the slashing database is unchanged by such a refusal), exit only for a listed source.",
+     "none under any other type via the attestation/proposal endpoints (and the slashing database is unchanged by such a refusal), exit only for a listed source. "
+     "A sixteenth worker enumerates a 48-case table over real gRPC/TLS: administrator list {none, 127.0.0.2, 127.0.0.1+127.0.0.3} x the loopback address the client binds its connection to x "
+     "forwarding headers naming a listed address or none x {Sign, Multisign}: the source is what the TCP connection says.",
      q, t)
 
 REAL_W2 = ("REAL per instance: process/standard (DKG), receiver gRPC handlers, accountmanager/lister/signer handlers and services, ruler, locker, rules on badger, checker/static, fetcher/mem, "
